@@ -605,6 +605,53 @@ fn box_logical_nesting(obs: &mut Obs, thorough: bool) -> Res {
     Ok(())
 }
 
+/// comparisons of two equal (and of two almost equal) containers nested 1-128 deep: deep equality must walk
+/// each pair of members once - work that doubles per level never returns for a template 30 levels deep
+fn box_deep_equality(obs: &mut Obs, thorough: bool) -> Res {
+    fn nest(shape: usize, d: usize, leaf: Value) -> Value {
+        let mut v = leaf;
+        for i in 0..d {
+            v = match shape {
+                0 => json!({ "k": v }),
+                1 => json!({ "k": v, "n": i }),
+                2 => json!([v]),
+                3 => json!([i, v, "s"]),
+                _ => {
+                    if i % 2 == 0 {
+                        json!({ "k": v, "m": [i] })
+                    } else {
+                        json!([{ "z": i }, v])
+                    }
+                }
+            };
+        }
+        v
+    }
+    let mut depths: Vec<usize> = (1..=if thorough { 128 } else { 64 }).collect();
+    if !thorough {
+        depths.extend([100usize, 128]);
+    }
+    let queries = ["$[?@.a == @.b]", "$[?@.a != @.b]", "$[?@.a <= @.b]", "$[?@.b >= @.a]", "$[?@.a == $[0].b]", "$[?@.a < @.b]", "$[?@.a == @.b && @.b == @.a]"];
+    let mut count = 0usize;
+    for shape in 0..5usize {
+        for &d in &depths {
+            // row 0: equal; row 1: different at the innermost leaf only
+            let doc = json!([{"a": nest(shape, d, json!(1)), "b": nest(shape, d, json!(1))}, {"a": nest(shape, d, json!(1)), "b": nest(shape, d, json!(2))}]);
+            obs.nontrivial(&("deep-eq", shape, d), || json!({"shape": shape, "depth": d, "row(depth 2)": json!({"a": nest(shape, 2, json!(1)), "b": nest(shape, 2, json!(1))})}));
+            for q in queries {
+                match all_entry_points(q, &doc, obs)? {
+                    Out::Ok => {}
+                    Out::Err => return Err(Failure::new("a valid comparison of two containers is refused", json!({"query": q, "depth": d, "shape": shape}))),
+                }
+                count += 1;
+            }
+            // deep values recurse in drop as well; 128 levels are harmless
+        }
+    }
+    obs.boxes.push(json!({"box": "comparisons of equal / almost equal containers nested 1..128 deep (objects, objects with siblings, arrays, arrays with siblings, mixed) through all entry points", "queries": count, "exhaustive": true}));
+    Ok(())
+}
+
 fn direct(case: &Value, obs: &mut Obs) -> Res {
     let q = case["query"].as_str().unwrap_or("");
     all_entry_points(q, &case["doc"], obs).map(|_| ())
@@ -627,6 +674,7 @@ pub fn prop() -> Prop {
             Sub { name: "box-targeted-invalid", kind: Kind::Exhaustive(box_targeted_invalid) },
             Sub { name: "box-regex-sizes", kind: Kind::Exhaustive(box_regex_sizes) },
             Sub { name: "box-logical-nesting", kind: Kind::Exhaustive(box_logical_nesting) },
+            Sub { name: "box-deep-equality", kind: Kind::Exhaustive(box_deep_equality) },
             Sub { name: "random-valid", kind: Kind::Random { f: random_valid, quick: 30_000, thorough: 1_600_000, len: 600 } },
             Sub { name: "random-near-miss", kind: Kind::Random { f: random_near_miss, quick: 160_000, thorough: 3_200_000, len: 600 } },
             Sub { name: "random-extreme-text", kind: Kind::Random { f: random_extreme_text, quick: 80_000, thorough: 1_600_000, len: 64 } },
